@@ -42,6 +42,19 @@ if TYPE_CHECKING:  # pragma: no cover
     from geostructures.typing import GeoShape, PolygonLike
 
 
+def _is_on_segment(coord: Coordinate, start: Coordinate, end: Coordinate) -> bool:
+    """Tests whether a coordinate lies on the closed segment between two coordinates"""
+    cross = (
+        (end.longitude - start.longitude) * (coord.latitude - start.latitude)
+        - (end.latitude - start.latitude) * (coord.longitude - start.longitude)
+    )
+    return (
+        cross == 0
+        and min(start.longitude, end.longitude) <= coord.longitude <= max(start.longitude, end.longitude)
+        and min(start.latitude, end.latitude) <= coord.latitude <= max(start.latitude, end.latitude)
+    )
+
+
 class PolygonBase(SingleShapeBase, PolygonLikeMixin, ABC):
 
     def __init__(
@@ -151,7 +164,7 @@ class PolygonBase(SingleShapeBase, PolygonLikeMixin, ABC):
             return False
 
         if isinstance(shape, PointLike):
-            return shape in self
+            return self.contains_shape(shape) or self._touches_coordinate(shape.centroid, **kwargs)
 
         s_edges = self.edges(**kwargs)
         o_edges = shape.edges(**kwargs) if isinstance(shape, PolygonLike) else [cast(LineLike, shape).segments]
@@ -166,6 +179,14 @@ class PolygonBase(SingleShapeBase, PolygonLikeMixin, ABC):
         # which counts as intersection. Have to use a point from the boundary
         # because the centroid may fall in a hole
         return o_edges[0][0][0] in self or s_edges[0][0][0] in shape
+
+    def _touches_coordinate(self, coord: Coordinate, **kwargs) -> bool:
+        """Tests whether a coordinate lies exactly on one of the shape's linear rings"""
+        for ring in self.edges(**kwargs):
+            for start, end in ring:
+                if _is_on_segment(coord, start, end):
+                    return True
+        return False
 
     def linear_rings(self, **kwargs) -> List[List[Coordinate]]:
         return [
@@ -1545,7 +1566,9 @@ class GeoLineString(SingleShapeBase, LineLikeMixin, SimpleShapeMixin):
             return False
 
         if isinstance(shape, PointLike):
-            return shape in self
+            return self.contains_shape(shape) or any(
+                _is_on_segment(shape.centroid, start, end) for start, end in self.segments
+            )
 
         s_edges = [self.segments]
         o_edges = shape.edges(**kwargs) if isinstance(shape, PolygonLike) else [cast(LineLike, shape).segments]
@@ -1675,8 +1698,8 @@ class GeoPoint(SingleShapeBase, PointLikeMixin, SimpleShapeMixin):
 
     def intersects_shape(self, shape: 'GeoShape', **kwargs) -> bool:
         if isinstance(shape, GeoPoint):
-            return self == shape
-        return self in shape
+            return self.coordinate == shape.coordinate
+        return shape.intersects_shape(self)
 
     @classmethod
     def from_geojson(
